@@ -139,6 +139,10 @@ func (k *Case) addCSRName(s string) {
 	}
 }
 
+// nebNearIPs are addresses no Nebula host certificate of the harness carries; most lie inside the
+// certificates' network 10.1.0.0/16.
+var nebNearIPs = []string{"10.1.1.200", "10.1.1.6", "10.1.9.9", "10.1.0.0", "10.1.255.255", "10.1.0.1", "10.1.2.9", "10.1.4.2", "10.2.1.7", "::ffff:10.1.1.200"}
+
 func genCase(r *c.Rng) *Case {
 	k := &Case{Key: "ec"}
 	if r.Chance(1, 2) {
@@ -194,7 +198,17 @@ func genCase(r *c.Rng) *Case {
 		for _, cidr := range sp.ips {
 			creds = append(creds, strings.Split(cidr, "/")[0])
 		}
-		switch r.Intn(6) {
+		switch r.Intn(7) {
+		case 6: // the certificate's names plus an address the certificate does not carry: a neighbour
+			// inside one of its networks, the network and broadcast addresses, another host's
+			// address, an address outside every network. Certified is the address, not the network.
+			k.SANs, k.NoSANs = append(append([]string{}, creds[:1+r.Intn(len(creds))]...), c.Pick(r, nebNearIPs)), false
+			if r.Chance(1, 3) {
+				k.SANs = k.SANs[len(k.SANs)-1:]
+			}
+			if r.Chance(1, 2) {
+				k.IPs = []string{k.SANs[len(k.SANs)-1]}
+			}
 		case 0, 1, 2: // no sans claim: the certificate's own names
 			k.SANs, k.NoSANs = nil, r.Chance(1, 2)
 		case 3: // the certificate's names, listed
@@ -454,6 +468,11 @@ func corner() []*Case {
 		{Prov: "nebula", NebHost: 0, Sub: "evil.example.com", SANs: []string{"evil.example.com"}, CN: "evil.example.com", Key: "ec"},
 		{Prov: "nebula", NebHost: 0, Sub: "host-a.neb", SANs: []string{"evil.example.com"}, DNS: []string{"evil.example.com"}, Key: "ec"},
 		{Prov: "nebula", NebHost: 0, Sub: "host-a.neb", NoSANs: true, Cnf: "bad", Key: "ec"},
+		{Prov: "nebula", NebHost: 0, Sub: "host-a.neb", SANs: []string{"host-a.neb", "10.1.1.8"}, IPs: []string{"10.1.1.8"}, Key: "ec"},
+		{Prov: "nebula", NebHost: 0, Sub: "host-a.neb", SANs: []string{"host-a.neb", "10.1.9.9"}, Key: "ec"},
+		{Prov: "nebula", NebHost: 0, Sub: "host-a.neb", SANs: []string{"10.1.0.0"}, IPs: []string{"10.1.0.0"}, Key: "ec"},
+		{Prov: "nebula", NebHost: 1, Sub: "a@neb.example", SANs: []string{"a@neb.example", "10.1.2.8", "10.1.2.9"}, Key: "ec"},
+		{Via: "api", Prov: "nebula", NebHost: 0, Sub: "host-a.neb", SANs: []string{"host-a.neb", "10.1.1.200"}, Key: "ec"},
 		{Prov: "jwktpl", Sub: "svc", SANs: []string{"a.example.com"}, UD: `{"extensions":"x"}`, Key: "ec"},
 		{Prov: "jwktpl", Sub: "svc", SANs: []string{"a.example.com"}, UD: `{"extensions":[{"id":"not-an-oid","value":"BAEB"}]}`, Key: "ec"},
 		{Prov: "jwktpl", Sub: "svc", SANs: []string{"a.example.com"}, UD: `[1,2,3]`, Key: "ec"},
